@@ -362,14 +362,21 @@ def weights_stage(prop):
 # ---------------------------------------------------------------------------------------------------
 # one TLC state = one call (constructors, decoder)
 # ---------------------------------------------------------------------------------------------------
-def cases_stage(prop, module, tier, seed, groups=("fm", "rist"), invariants="", workers=8, limit=None):
+def cases_stage(prop, module, tier, seed, groups=("fm", "rist"), invariants="", workers=8, limit=None, consts="", negative=None):
+    """negative = (constant assignments of a seeded specification defect, invariant it must violate)"""
     st = StageResult("cases:" + module)
     t0 = time.time()
     wd = vlib.workdir(f"{prop}_cases_{module}")
-    cfg = f'CONSTANTS Tier = "{tier}"\nSPECIFICATION Spec\nINVARIANTS {invariants} Emit\nCHECK_DEADLOCK FALSE\n'
+    cfg = f'CONSTANTS Tier = "{tier}" {consts}\nSPECIFICATION Spec\nINVARIANTS {invariants} Emit\nCHECK_DEADLOCK FALSE\n'
     r = vlib.run_tlc(module, cfg, wd, workers=workers, timeout=3000)
     if not r["ok"]:
         raise vlib.ToolError(f"{module}: specification-level failure {r['violated']}\n" + r["out"][-2500:])
+    if negative:
+        ncfg = f'CONSTANTS Tier = "{tier}" {negative[0]}\nSPECIFICATION Spec\nINVARIANTS {negative[1]}\nCHECK_DEADLOCK FALSE\n'
+        rn = vlib.run_tlc(module, ncfg, vlib.workdir(f"{prop}_cases_{module}_neg"), workers=workers, timeout=3000)
+        st.negatives.append({"name": negative[0].strip(), "expected": negative[1], "violated": rn["violated"]})
+        if negative[1] not in rn["violated"]:
+            raise vlib.ToolError(f"{module}: negative configuration {negative[0]} not caught")
     st.states += r["distinct"]
     st.transitions += r["generated"]
     cases = vlib.replay_lines(r["out"])
@@ -546,7 +553,7 @@ def threads_stage(prop, tier, seed, races=6, race_threads=8):
     if len(hist) > limit:
         # always keep histories in which one thread runs a call and later a related one (smaller before larger parameter
         # set, a recovery before a recovery with more rounds, a refused batch before a valid one, the same call twice)
-        pairs = {(0, 3), (1, 3), (2, 3), (0, 1), (0, 2), (5, 11), (6, 11), (10, 6), (10, 9), (8, 6), (4, 4), (9, 9), (4, 5), (12, 13), (13, 12), (14, 6), (14, 14)}
+        pairs = {(0, 3), (1, 3), (2, 3), (0, 1), (0, 2), (5, 11), (6, 11), (10, 6), (10, 9), (8, 6), (4, 4), (9, 9), (4, 5), (12, 13), (13, 12), (14, 6), (14, 14), (15, 15), (15, 6), (15, 14), (15, 11), (15, 8)}
 
         def related(h):
             st_ = h["steps"]
@@ -561,20 +568,21 @@ def threads_stage(prop, tier, seed, races=6, race_threads=8):
             fh.write(json.dumps(h) + "\n")
     # reference: each call alone, in its own fresh single-threaded process
     ref_lines = ""
-    for c in range(15):
+    flood = ["--flood", "40000" if q else "300000"]
+    for c in range(16):
         refp = os.path.join(wd, f"ref{c}.ndjson")
-        vlib.run_harness(["threads", "--reference", str(c), "--out", refp])
+        vlib.run_harness(["threads", "--reference", str(c), "--out", refp] + flood)
         ref_lines += open(refp).read()
     files = []
     hp_out = os.path.join(wd, "hist_trace.ndjson")
-    vlib.run_harness(["threads", "--histories", hp, "--out", hp_out], timeout=3000)
+    vlib.run_harness(["threads", "--histories", hp, "--out", hp_out] + flood, timeout=3000)
     files.append(("histories", hp_out))
     lp = os.path.join(wd, "long.ndjson")
-    vlib.run_harness(["threads", "--long", "400" if q else "3000", "--out", lp], timeout=3000)
+    vlib.run_harness(["threads", "--long", "400" if q else "3000", "--out", lp] + flood, timeout=3000)
     files.append(("long", lp))
     for i in range(races if q else races * 5):
         rp = os.path.join(wd, f"race{i}.ndjson")
-        vlib.run_harness(["threads", "--race", str(race_threads if i % 2 == 0 else 2 + (i % 15)), "--run", str(i), "--out", rp], timeout=3000)
+        vlib.run_harness(["threads", "--race", str(race_threads if i % 2 == 0 else 2 + (i % 15)), "--run", str(i), "--out", rp] + flood, timeout=3000)
         files.append((f"race{i}", rp))
     tcfg = "SPECIFICATION Spec\nCONSTRAINT Progress\nPOSTCONDITION Accepted\nCHECK_DEADLOCK FALSE\n"
     for name, fp in files:
